@@ -103,6 +103,14 @@ CHECKS.update({
         "(TcProtoTrace.tla, phase outcomes inferred), and every call must return in time without killing the host (crash-isolated driver, grace period).",
    note="Trusted: TLC; the verifTc hooks; the driver's crash attribution. Bounded: inputs of the tier/seed; 20 s per program; late crashes within the batch lifetime.",
    technique="TLA+ protocol specification (TcProto.tla) model-checked incl. liveness + TLC trace validation of typechecker hook logs + crash/hang observation"),
+ "C18": dict(cat="model_checking", design="DESIGN.md 5 C18", engine="Cli",
+   text="Cli.tla is the staged state machine of cmd/cli.go (flag resolution with both spellings of each switch, argument check, parse, typecheck?, execute? "
+        "with version selection); TLC checks ExitZeroIff, NoRunUnlessChecked, NoOutputOnFailure, NoExecuteNeverRuns, OneDiagnostic, PanicOnlyK3 and "
+        "termination over all 15120 configurations (switch spellings x verbosity x argument count x program class). The built grits binary is invoked on "
+        "every switch combination (and seeded extras) and each observation (exit status, process spawned, program output, diagnostics, panic trace) must "
+        "equal the terminal state the specification reaches for that configuration (invariant ObservationOK in conform mode).",
+   note="Trusted: TLC; the classification of the program files (by construction); the observation regexes. Known finding K3 is the only admitted panic.",
+   technique="TLA+ specification of the CLI pipeline (Cli.tla) model-checked over all configurations + TLC conformance check of recorded invocations of the built binary"),
 })
 
 REASON_TODO = "check not built yet (build in progress, see DESIGN.md section 9)"
@@ -128,6 +136,8 @@ def main():
               "kind_free_text": "TLA+ state machine whose behaviours are typing derivations (well-typed programs) and single rule-violating mutations"},
              {"name": "TcProto", "path": "spec/TcProto.tla", "serves_properties": ["C09", "C19"],
               "kind_free_text": "TLA+ specification of the Typecheck caller/worker protocol (intended and as-written variants); TcProtoTrace.tla validates hook logs"},
+             {"name": "Cli", "path": "spec/Cli.tla", "serves_properties": ["C18"],
+              "kind_free_text": "TLA+ specification of the command line pipeline; model mode (all configurations) and conform mode (recorded invocations)"},
              {"name": "Scanner", "path": "spec/Scanner.tla", "serves_properties": ["C11", "C12"],
               "kind_free_text": "TLA+ state machine of the hand-written scanner over character classes; TLC enumerates all short inputs"},
              {"name": "vworker", "path": "harness/cmd/vworker", "serves_properties": ["C08", "C09", "C10", "C11", "C12", "C15", "C16", "C17"],
